@@ -16,15 +16,23 @@ import (
 //
 //	it hook        -> h<i>
 //	it unhook <h>  -> done
+//	it link        -> done       S.LinkTo(X): X gets S's link hook (the previous one is unhooked first)
+//	it unlink      -> done       S.LinkTo(nil)
 //	it begin <a>   -> begun      Trigger(a) starts; the following lines up to the end of the iteration are
 //	                             consumed by the callbacks
-//	it visit       -> h<i> | end | idle   the iteration arrived at hook h<i> (answered on entry of its callback);
-//	                             the `it hook` / `it unhook` lines that follow are executed inside that callback
+//	it visit       -> h<i> | s | end | idle   the iteration arrived at hook h<i> (answered on entry of its callback)
+//	                             or at S's link hook (`s`, answered on entry of S's own hook); the `it hook` /
+//	                             `it unhook` / `it link` / `it unlink` lines that follow run inside that callback
 
 type itWorld struct {
 	e      *event.Event1[int]
-	hooks  []*event.Hook[func(int)]
-	active bool
+	src    *event.Event1[int] // S: linked to / unlinked from e by `it link` / `it unlink`
+	linked bool
+	// oracle for the link: S fired during the running Trigger; the link changed during it
+	sFired, relinks int
+	linkedAtBegin   bool
+	hooks           []*event.Hook[func(int)]
+	active          bool
 	// oracle
 	attached map[int]bool // currently attached
 	must     map[int]bool // attached when the running Trigger began and not unhooked since
@@ -36,10 +44,31 @@ type itWorld struct {
 
 func (w *world) itw() *itWorld {
 	if w.it == nil {
-		w.it = &itWorld{e: event.New1[int](), attached: map[int]bool{}}
+		w.it = &itWorld{e: event.New1[int](), src: event.New1[int](), attached: map[int]bool{}}
+		w.it.src.Hook(func(int) { w.itCallbackS() })
 	}
 
 	return w.it
+}
+
+func itMutation(op string) bool {
+	f := strings.Fields(op)
+
+	return len(f) >= 2 && f[0] == "it" && (f[1] == "hook" || f[1] == "unhook" || f[1] == "link" || f[1] == "unlink")
+}
+
+// itCallbackS is S's own hook: X's iteration arrived at S's link hook and called S.Trigger.
+func (w *world) itCallbackS() {
+	t := w.it
+	if !t.active {
+		return
+	}
+	if w.pos < len(w.ops) && strings.Join(strings.Fields(w.ops[w.pos]), " ") == "it visit" {
+		w.pos++
+	}
+	w.emit("it visit", "s")
+	t.sFired++
+	w.run(itMutation)
 }
 
 func (w *world) itCallback(h int) {
@@ -50,11 +79,7 @@ func (w *world) itCallback(h int) {
 	w.emit("it visit", fmt.Sprintf("h%d", h))
 	t.seen[h]++
 	t.order = append(t.order, h)
-	w.run(func(op string) bool {
-		f := strings.Fields(op)
-
-		return len(f) >= 2 && f[0] == "it" && (f[1] == "hook" || f[1] == "unhook")
-	})
+	w.run(itMutation)
 }
 
 func (w *world) execIT(f []string) string {
@@ -85,6 +110,19 @@ func (w *world) execIT(f []string) string {
 		}
 
 		return "done"
+	case (f[0] == "link" || f[0] == "unlink") && len(f) == 1:
+		if f[0] == "link" {
+			t.src.LinkTo(t.e)
+		} else {
+			t.src.LinkTo(nil)
+		}
+		t.linked = f[0] == "link"
+		if t.active {
+			t.relinks++
+			t.muts++
+		}
+
+		return "done"
 	case f[0] == "begin" && len(f) == 2:
 		a, err := strconv.Atoi(f[1])
 		if err != nil || t.active {
@@ -93,6 +131,7 @@ func (w *world) execIT(f []string) string {
 		w.emit("it begin "+f[1], "begun")
 		t.active, t.runs = true, t.runs+1
 		t.must, t.seen, t.order = map[int]bool{}, map[int]int{}, nil
+		t.sFired, t.relinks, t.linkedAtBegin = 0, 0, t.linked
 		for h := range t.attached {
 			t.must[h] = true
 		}
@@ -116,6 +155,16 @@ func (w *world) execIT(f []string) string {
 				break
 			}
 		}
+		if t.relinks == 0 {
+			want := 0
+			if t.linkedAtBegin {
+				want = 1
+			}
+			if t.sFired != want {
+				w.fail("link", fmt.Sprintf("the linked event fired %d times during one Trigger of its target (linked when the Trigger began: %v, no re-link meanwhile)", t.sFired, t.linkedAtBegin),
+					map[string]string{"oracle": "link-fired", "api": "event.Event1.LinkTo", "mode": "hook-unhook-from-callbacks"})
+			}
+		}
 		if t.muts > 0 {
 			w.res.nontrivial = true
 		}
@@ -134,6 +183,11 @@ var itCorpus = [][]string{
 	{"it hook", "it hook", "it begin 1", "it visit", "it unhook 0", "it unhook 1", "it hook", "it visit", "it visit", "it begin 2", "it visit", "it visit"},
 	{"it hook", "it begin 1", "it visit", "it hook", "it hook", "it visit", "it unhook 2", "it visit", "it visit", "it visit", "it unhook 7", "it visit"},
 	{"it begin 0", "it visit", "it hook", "it unhook 0", "it begin 3", "it visit"},
+	// re-link from inside a callback: the old link hook is removed while the iterator has not reached it, the new one is appended
+	{"it hook", "it link", "it hook", "it begin 1", "it visit", "it link", "it visit", "it visit", "it visit", "it begin 2", "it visit", "it visit", "it visit", "it visit"},
+	// re-link from inside S's own hook (the iterator stands on the link hook that is being removed) and unlink
+	{"it hook", "it link", "it hook", "it begin 1", "it visit", "it visit", "it link", "it visit", "it visit", "it visit", "it begin 2", "it visit", "it unlink", "it visit", "it visit", "it visit"},
+	{"it link", "it begin 1", "it visit", "it unlink", "it link", "it visit", "it link", "it visit", "it visit", "it unlink", "it begin 5", "it visit"},
 }
 
 func genIT(rng *hx.Rng) []string {
@@ -143,9 +197,24 @@ func genIT(rng *hx.Rng) []string {
 		ops = append(ops, "it hook")
 		hooks++
 	}
+	withLinks := rng.Chance(1, 2)
+	mut := func() string {
+		if withLinks && rng.Chance(1, 4) {
+			if rng.Chance(1, 3) {
+				return "it unlink"
+			}
+
+			return "it link"
+		}
+
+		return fmt.Sprintf("it unhook %d", rng.Intn(hooks))
+	}
+	if withLinks && rng.Chance(2, 3) {
+		ops = append(ops, "it link")
+	}
 	for r, runs := 0, 1+rng.Intn(3); r < runs; r++ {
 		if rng.Chance(1, 3) {
-			ops = append(ops, fmt.Sprintf("it unhook %d", rng.Intn(hooks)))
+			ops = append(ops, mut())
 		}
 		ops = append(ops, fmt.Sprintf("it begin %d", rng.Intn(10)))
 		for v, nv := 0, hooks+2; v < nv; v++ {
@@ -156,7 +225,11 @@ func genIT(rng *hx.Rng) []string {
 					hooks++
 					nv++
 				} else {
-					ops = append(ops, fmt.Sprintf("it unhook %d", rng.Intn(hooks)))
+					m := mut()
+					if m == "it link" {
+						nv++
+					}
+					ops = append(ops, m)
 				}
 			}
 		}
